@@ -28,7 +28,7 @@ from .model_zoo import ADAPTERS, TEMPLATES, obs_diff, project
 VERIF = os.path.dirname(os.path.dirname(os.path.dirname(os.path.abspath(__file__))))
 
 OP_WEIGHTS = {"new": 2, "mutate": 30, "read": 12, "spawn": 12, "save": 8, "load": 7, "split": 12, "replay": 6,
-              "drop": 3, "handoff": 1, "cleanroom": 1}
+              "drop": 3, "handoff": 2, "cleanroom": 1}
 FAULT_KINDS = ("open_enoent", "open_eacces", "open_enospc", "write_enospc", "write_eio", "read_eio", "close_eio", "rename_eio", "crash")
 RTOL = 1e-9
 
@@ -57,7 +57,7 @@ class ModelsWorld(World):
         kinds = list(OP_WEIGHTS)
         disabled = [k for k in kinds if k not in ("new", "mutate", "spawn", "replay") and rng.random() < 0.2]
         weights = {k: (0 if k in disabled else OP_WEIGHTS[k] * rng.choice([1, 1, 2])) for k in kinds}
-        if tier == "quick" and rng.random() > 0.06:
+        if tier == "quick" and rng.random() > 0.3:
             weights["handoff"] = 0
         if tier != "quick" and rng.random() > 0.25:
             weights["handoff"] = 0
@@ -371,6 +371,11 @@ class ModelsWorld(World):
                 m = {"k": "autovalues"}
             elif x < 0.86:
                 m = {"k": "solve"}
+                if TEMPLATES[r.tname]["shocks"] and rng.random() < 0.35:
+                    # the fresh solution is first used through a narrow window (a short anticipation horizon), so that
+                    # whatever it memoises is later resumed, not built in one go, by the wider readers
+                    self._pending = [{"op": "read", "args": {"h": h, "r": {"k": "simulate", "horizon": rng.choice([1, 2]), "deviation": False,
+                                                                           "order": 1, "v": 0, "ant": True}}}]
             elif x < 0.885:
                 # the tolerances belong to the model: a replica carries them, and overriding them in one object is
                 # nobody else's business
